@@ -239,6 +239,9 @@ def run(prop, tier, seed, replay=None):
                 run_extractors(spec['extractors'])
             lake_build(['g3dmodel'])
         case = json.load(open(replay))
+        if isinstance(case.get('case'), dict) and case['case'].get('kind') == 'implementation-exception':
+            # the exception escaped the harness of a whole run: the replay is that run (same seed and tier)
+            return run(prop, case['case'].get('tier', 'quick'), int(case['case'].get('seed', seed)))
         return mod.replay(ctx, case)
     thms = spec['theorems']
     extractors = spec.get('extractors', [])
@@ -281,10 +284,21 @@ def run(prop, tier, seed, replay=None):
     # 4 correspondence (+5: the property module widens its search when obligations broke)
     try:
         mod.run(ctx)
-    except Exception:
-        traceback.print_exc()
-        log('INFRA: harness error in %s' % prop)
-        return 2
+    except Exception as e:
+        tb = traceback.format_exc() + (getattr(e.__cause__, 'tb', '') or '')
+        src = os.path.join(os.environ.get('G3D_SRC', '/repo'), 'Geometry3D') + os.sep
+        frames = [l.strip() for l in tb.split('\n') if l.strip().startswith('File "' + src)]
+        if not frames:
+            traceback.print_exc()
+            log('INFRA: harness error in %s' % prop)
+            return 2
+        # the exception was raised INSIDE the implementation at a place where the harness has no handler, i.e. where the
+        # unchanged tree never raises for the inputs of this run (construction / observation of a valid case): a behaviour
+        # change, reported with the raising frame and the traceback (the run's seed replays it)
+        where = frames[-1].replace(src, 'Geometry3D/')
+        ctx.violation('implementation raised ' + type(e).__name__ + ' at ' + where.split(', line')[0] + where[where.find(', in'):],
+                      'the implementation raised %s: %s (%s) while the harness constructed / observed a case of this run; the unchanged tree raises nothing here' % (type(e).__name__, str(e)[:120], where),
+                      dict(kind='implementation-exception', seed=seed, tier=tier, traceback=tb[-3000:]))
     if ctx.broken and not ctx.violations and hasattr(mod, 'search'):
         try:
             mod.search(ctx)
